@@ -82,7 +82,7 @@ def c01(kind, version, routes, raw, obs, info=None):
         bad.append(("reply-not-json:" + kind, "the reply is not JSON: %r" % w[0][1][:120]))
         return bad
     ok = isinstance(fr, list) and ((len(fr) == 3 and fr[0] == 3) or (len(fr) == 5 and fr[0] == 4 and isinstance(fr[2], str)
-                                                                        and isinstance(fr[3], str)))
+                                                                        and isinstance(fr[3], str) and isinstance(fr[4], dict)))
     if not ok:
         bad.append(("reply-shape:" + kind, "the reply %r is neither a CALLRESULT nor a CALLERROR" % (w[0][1][:120],)))
     elif jkey(fr[1]) != jkey(call[0]) and not (isinstance(call[0], float) and call[0] != call[0]):
